@@ -63,8 +63,8 @@ def client_pkg_orda_map_go : Nat := 0x8ce6d9954e483a65
 def client_pkg_orda_ordered_go : Nat := 0xc91344a7c33b50eb
 /-- client/pkg/orda/timed.go (10 declarations) -/
 def client_pkg_orda_timed_go : Nat := 0x5736c45877b53746
-/-- client/pkg/types/json_values.go (7 declarations) -/
-def client_pkg_types_json_values_go : Nat := 0xbcfa0c2e211fced4
+/-- client/pkg/types/json_values.go (8 declarations) -/
+def client_pkg_types_json_values_go : Nat := 0x67d361d0a90ce369
 /-- client/pkg/types/uid.go (5 declarations) -/
 def client_pkg_types_uid_go : Nat := 0xfb05fb5191909511
 /-- server/admin/admin.go (4 declarations) -/
